@@ -443,8 +443,180 @@ func (g *Gen) Expr(depth int) *Expr {
 		return e
 	case 7:
 		return g.named(depth, false)
+	case 8:
+		if depth >= 2 {
+			return g.TwinStruct(depth)
+		}
 	}
 	return g.Expr(depth - 1)
+}
+
+// TwinStruct returns struct{ A X; B X' } (sometimes behind pointers / slices / as map values) where X is a random
+// struct type and X' is a copy of X that differs in exactly ONE place, possibly deep inside and behind a pointer: two
+// types that look alike under any lossy rendering (a memo keyed by a short string, a hash of field names ...) but are
+// different types.
+func (g *Gen) TwinStruct(depth int) *Expr {
+	return TwinStructWith(g.R, g.Expr, depth, g.altNamed)
+}
+
+// TwinStructWith: TwinStruct over any expression generator (altNamed may be nil: named leaves are then left alone).
+func TwinStructWith(r *rand.Rand, mk func(depth int) *Expr, depth int, altNamed func(e *Expr, inKey bool) bool) *Expr {
+	g := struct{ R *rand.Rand }{r}
+	var x *Expr
+	for tries := 0; ; tries++ {
+		x = &Expr{Kind: "struct"}
+		n := 1 + g.R.Intn(3)
+		for i := 0; i < n; i++ {
+			x.Fields = append(x.Fields, Field{Name: fmt.Sprintf("V%d", i), Type: mk(depth - 2), Tag: tags[g.R.Intn(len(tags))]})
+		}
+		if Twin(g.R, x.Clone(), altNamed) != nil || tries > 8 {
+			break
+		}
+	}
+	y := Twin(g.R, x.Clone(), altNamed)
+	if y == nil {
+		return x
+	}
+	wrap := func(e *Expr) *Expr {
+		switch g.R.Intn(5) {
+		case 0:
+			return &Expr{Kind: "ptr", Elem: e}
+		case 1:
+			return &Expr{Kind: "slice", Elem: e}
+		case 2:
+			return &Expr{Kind: "map", Key: &Expr{Kind: "basic", Name: "string"}, Elem: e}
+		}
+		return e
+	}
+	fs := []Field{{Name: "A", Type: wrap(x)}, {Name: "B", Type: wrap(y)}}
+	if g.R.Intn(2) == 0 {
+		fs[0], fs[1] = Field{Name: "A", Type: fs[1].Type}, Field{Name: "B", Type: fs[0].Type}
+	}
+	if g.R.Intn(3) == 0 {
+		fs = append(fs, Field{Name: "C", Type: wrap(x.Clone())})
+	}
+	return &Expr{Kind: "struct", Fields: fs}
+}
+
+func (g *Gen) altNamed(e *Expr, inKey bool) bool {
+	if inKey || len(e.Args) > 0 {
+		return false
+	}
+	if len(g.Paths) > 1 && g.R.Intn(2) == 0 {
+		// the same type name in another package
+		for tries := 0; tries < 8; tries++ {
+			if p := g.Paths[g.R.Intn(len(g.Paths))]; p != e.Path {
+				e.Path = p
+				return true
+			}
+		}
+	}
+	for tries := 0; tries < 8; tries++ {
+		if n := NamedPlain[g.R.Intn(len(NamedPlain))]; n != e.Name {
+			e.Name = n
+			return true
+		}
+	}
+	return false
+}
+
+// Clone deep-copies an expression.
+func (e *Expr) Clone() *Expr {
+	if e == nil {
+		return nil
+	}
+	c := *e
+	c.Elem, c.Key = e.Elem.Clone(), e.Key.Clone()
+	c.Args = nil
+	for _, a := range e.Args {
+		c.Args = append(c.Args, a.Clone())
+	}
+	c.Fields = nil
+	for _, f := range e.Fields {
+		f.Type = f.Type.Clone()
+		c.Fields = append(c.Fields, f)
+	}
+	return &c
+}
+
+var twinBasics = []string{"bool", "int", "int8", "int16", "int32", "int64", "uint", "uint16", "uint32", "uint64", "float32", "float64", "string"}
+
+// Twin changes e in exactly one place (a basic leaf, an array length, pointer <-> slice, a named leaf through
+// altNamed, a field's tag or name) and returns it, or nil if e has no place to change. Embedded fields, generic
+// arguments and (for named types) map keys are left alone.
+func Twin(r *rand.Rand, e *Expr, altNamed func(e *Expr, inKey bool) bool) *Expr {
+	type site struct {
+		e     *Expr
+		f     *Field
+		inKey bool
+	}
+	var sites []site
+	var walk func(e *Expr, inKey bool)
+	walk = func(e *Expr, inKey bool) {
+		if e == nil {
+			return
+		}
+		switch e.Kind {
+		case "basic", "array":
+			sites = append(sites, site{e: e, inKey: inKey})
+		case "named":
+			if len(e.Args) == 0 && altNamed != nil && !inKey {
+				sites = append(sites, site{e: e, inKey: inKey})
+			}
+			return
+		case "ptr", "slice":
+			if !inKey {
+				sites = append(sites, site{e: e, inKey: inKey})
+			}
+		}
+		walk(e.Elem, inKey)
+		walk(e.Key, true)
+		for i := range e.Fields {
+			if e.Fields[i].Embedded {
+				continue
+			}
+			sites = append(sites, site{f: &e.Fields[i]})
+			walk(e.Fields[i].Type, inKey)
+		}
+	}
+	walk(e, false)
+	for tries := 0; tries < 16 && len(sites) > 0; tries++ {
+		s := sites[r.Intn(len(sites))]
+		switch {
+		case s.f != nil:
+			if r.Intn(2) == 0 {
+				for _, t := range tags {
+					if t != s.f.Tag && t != "" {
+						s.f.Tag = t
+						return e
+					}
+				}
+			}
+			s.f.Name += "x"
+			return e
+		case s.e.Kind == "basic":
+			n := twinBasics[r.Intn(len(twinBasics))]
+			if n == s.e.Name || (s.e.Name == "rune" && n == "int32") || (s.e.Name == "byte") || (s.e.Name == "uint8") {
+				continue
+			}
+			s.e.Name = n
+			return e
+		case s.e.Kind == "array":
+			s.e.Len++
+			return e
+		case s.e.Kind == "ptr":
+			s.e.Kind = "slice"
+			return e
+		case s.e.Kind == "slice":
+			s.e.Kind = "ptr"
+			return e
+		case s.e.Kind == "named":
+			if altNamed(s.e, s.inKey) {
+				return e
+			}
+		}
+	}
+	return nil
 }
 
 // ---------------------------------------------------------------------------------------
